@@ -649,3 +649,66 @@ def s_Decimal(x=0, *a):
 def _decimal_invalid():
     import decimal
     return decimal.InvalidOperation('invalid decimal literal')
+
+
+class SOpaque(Sym):
+    """a float/int computed by operations the encoding does not interpret (**, and what follows): a term tree.
+    Two equal trees denote equal values (the operations are deterministic functions of their operands)."""
+    _pytype = float
+
+    def __init__(self, tag, pytype=float):
+        self.tag = tag
+        self._pytype = pytype
+
+    def _k(self, o):
+        if isinstance(o, SOpaque):
+            return o.tag
+        if isinstance(o, SFloat):
+            return ('float', o)
+        if isinstance(o, (int, float)):
+            return ('const', o)
+        if isinstance(o, SInt):
+            return ('int', o)
+        raise OutOfSubset('opaque arithmetic with %s' % type(o).__name__)
+
+    def __mul__(self, o): return SOpaque(('mul', self.tag, self._k(o)))
+    def __rmul__(self, o): return SOpaque(('mul', self._k(o), self.tag))
+    def __add__(self, o): return SOpaque(('add', self.tag, self._k(o)))
+    def __radd__(self, o): return SOpaque(('add', self._k(o), self.tag))
+    def __sub__(self, o): return SOpaque(('sub', self.tag, self._k(o)))
+    def __rsub__(self, o): return SOpaque(('sub', self._k(o), self.tag))
+    def __truediv__(self, o): return SOpaque(('div', self.tag, self._k(o)))
+    def __rtruediv__(self, o): return SOpaque(('div', self._k(o), self.tag))
+
+    def _sym_int(self, *a):
+        return SOpaque(('int', self.tag), int)
+
+    def _sym_floor(self):
+        return SOpaque(('floor', self.tag), int)
+
+    def _sym_ceil(self):
+        return SOpaque(('ceil', self.tag), int)
+
+    def _sym_float(self):
+        return self
+
+    def _sym_max(self, o):
+        return SOpaque(('max', self.tag, self._k(o)), self._pytype)
+
+    def _sym_min(self, o):
+        return SOpaque(('min', self.tag, self._k(o)), self._pytype)
+
+    def _sym_pow(self, o):
+        return SOpaque(('pow', self.tag, self._k(o)))
+
+    def __repr__(self):
+        return 'SOpaque(%r)' % (self.tag,)
+
+
+def _sfloat_pow(self, o):
+    if isinstance(o, (int, float)) and not isinstance(o, bool):
+        return SOpaque(('pow', ('float', self), ('const', o)))
+    raise OutOfSubset('** with a symbolic exponent')
+
+
+SFloat._sym_pow = _sfloat_pow
